@@ -55,7 +55,7 @@ REAL = Profile(ops=OPS_REAL, leaves={"coef", "const", "lit", "x", "geo", "zero",
 FACET = Profile(ops=OPS_REAL | {"derivn"}, leaves={"coef", "const", "lit", "x", "geo", "zero", "eye", "n"}, max_rank=2,
                 elements="all", manifolds=True, facet=True, args=((0, "any"), (1, "any")))
 INTERIOR = Profile(ops=OPS_REAL, leaves={"coef", "const", "lit", "x", "geo", "zero", "eye", "n"}, max_rank=2,
-                   elements="all", interior=True, facet=True, manifolds=False, args=((0, "any"), (1, "any")))
+                   elements="all", interior=True, facet=True, manifolds=True, args=((0, "any"), (1, "any")))
 CPLX = Profile(ops={"arith", "math", "index", "tensor", "compound", "deriv", "pow", "var", "complexops"}, cplx=True,
                leaves={"coef", "const", "lit", "x", "zero", "eye"}, max_rank=2, elements="all", manifolds=True,
                args=((0, "any"), (1, "any")))
